@@ -18,7 +18,11 @@ RULE = ("ideal and two-stage continuous batteries with noise off; initial charge
         "full, empty) +- {0,1e-12,1e-9,1e-6,1e-3}; each case is ONE probe sequence on one object: charge(T); reset(c); "
         "charge(T/2) twice; reset(c); charge(T/3) three times; reset(c); charge with a larger pilot; reset(c); charge for "
         "a longer period; reset(c); charge; charge(pilot 0); charge; reset() — so the implementation outputs of every law are recorded "
-        "and the model is compared on all of them; non-trivial = distinct (battery, probe parameters); second stream: "
+        "and the model is compared on all of them (the object is constructed with an initial charge different from c, so "
+        "the final reset() is distinguishable from reset(c)); `life` cases: arbitrary interleavings of charge / reset(x) / "
+        "reset(x > capacity) / refused charge / reset() on ideal, continuous and stepwise batteries, always ending with "
+        "reset(x), charging, reset() and a state-revealing tail whose answers are compared with a freshly constructed "
+        "battery's, plus EV.reset(); non-trivial = distinct (battery, probe parameters); second stream: "
         "model vs RK4 integration of the documented ODE; third: rational exp vs math.exp")
 ASSUMPTIONS = c03.ASSUMPTIONS + [
     "C14 covers the default 'continuous' calculation; the legacy 'stepwise' calculation is documented as an approximation and does not satisfy the period-splitting identity"]
@@ -29,7 +33,10 @@ REL = 1e-9
 
 def probe_ops(c, p, p_hi, V, T, T_long):
     n = 0.0
-    return [("charge", p, V, T, n), ("reset", c),
+    # the battery is constructed with an initial charge DIFFERENT from c; every reset(c) below is an explicit
+    # level, and the final reset() must come back to the constructor's value, not to c
+    return [("reset", c),
+            ("charge", p, V, T, n), ("reset", c),
             ("charge", p, V, T / 2, n), ("charge", p, V, T / 2, n), ("reset", c),
             ("charge", p, V, T / 3, n), ("charge", p, V, T / 3, n), ("charge", p, V, T / 3, n), ("reset", c),
             ("charge", p_hi, V, T, n), ("reset", c),
@@ -37,7 +44,16 @@ def probe_ops(c, p, p_hi, V, T, T_long):
             ("charge", p, V, T, n), ("charge", 0, V, T, n), ("charge", p, V, T, n), ("reset", None)]
 
 
-I_FULL, I_HALF2, I_THIRD3, I_HI, I_LONG, I_PRE_ZERO, I_ZERO, I_RESET = 0, 3, 7, 9, 11, 13, 14, 16
+I_FULL, I_HALF2, I_THIRD3, I_HI, I_LONG, I_PRE_ZERO, I_ZERO, I_LAST, I_RESET = 1, 4, 8, 10, 12, 14, 15, 16, 17
+
+
+def other_init(rng, cap, c):
+    """a constructor init charge different from c (so that reset(c) is distinguishable from reset())"""
+    for _ in range(20):
+        x = rng.choice([0.0, cap / 4.0, cap / 2.0, float(cap), round(rng.uniform(0, cap), 3)])
+        if abs(x - c) > 1e-3 * max(1.0, cap):
+            return x
+    return 0.0 if c > cap / 2.0 else float(cap)
 
 
 def rand_probe(rng):
@@ -58,18 +74,95 @@ def rand_probe(rng):
     else:
         c = round(rng.uniform(0, spec["cap"]), 4)
     c = min(max(c, 0.0), float(spec["cap"]))
-    spec["init"] = c
+    spec["init"] = other_init(rng, spec["cap"], c)
     p_hi = p + rng.choice([0, 1e-6, 0.5, 1, 8, 40])
     T_long = T * rng.choice([1, 1.000001, 1.5, 2, 7])
     return spec, probe_ops(c, p, p_hi, V, T, T_long), dict(c=c, p=p, p_hi=p_hi, V=V, T=T, T_long=T_long)
 
 
-def build(spec, ops, probe):
+# ---- life sequences: arbitrary interleavings of charge / reset(x) / reset(x > capacity) / reset() ----
+TAIL = [(16.0, 5.0), (32.0, 5.0), (0.0, 5.0), (80.0, 600.0), (32.0, 5.0)]     # state-revealing calls (long, high pilot)
+
+
+def rand_life(rng):
+    kind = rng.choice(["ideal", "l2", "l2", "l2s"])
+    spec = c03.rand_spec(rng, "ideal" if kind == "ideal" else "l2")
+    if spec["kind"] == "l2":
+        spec["nl"] = 0
+        spec["mode"] = "stepwise" if kind == "l2s" else "continuous"
+    cap = float(spec["cap"])
+    spec["init"] = rng.choice([0.0, cap / 2, round(rng.uniform(0, cap), 3), cap * 0.9, cap])
+    V = rng.choice(c03.VS)
+
+    def charge():
+        return ("charge", rng.choice([0, 6, 16, 32, 32, 80, round(rng.uniform(0.1, 60), 2)]), V, rng.choice([1, 5, 5, 15, 60, 600]), 0.0)
+
+    def level():
+        return rng.choice([0.0, cap / 4, cap / 2, cap * 0.85, cap, round(rng.uniform(0, cap), 3)])
+    ops = []
+    for _ in range(rng.randint(0, 6)):
+        t = rng.random()
+        if t < 0.5:
+            ops.append(charge())
+        elif t < 0.7:
+            ops.append(("reset", level()))
+        elif t < 0.78:
+            ops.append(("reset", cap + rng.choice([1e-6, 1, 50])))          # refused: nothing may change
+        elif t < 0.93:
+            ops.append(("reset", None))
+        else:
+            ops.append(("charge", 16, rng.choice([0, -1]), 5, 0.0))         # refused call
+    # always: an explicit level, some charging, (maybe another level / a refused one), then reset() and the tail
+    ops.append(("reset", level()))
+    ops += [charge() for _ in range(rng.randint(0, 2))]
+    if rng.random() < 0.3:
+        ops.append(("reset", cap + 1) if rng.random() < 0.5 else ("reset", level()))
+        ops += [charge() for _ in range(rng.randint(0, 1))]
+    ops.append(("reset", None))
+    ops += [("charge", p, V, T, 0.0) for p, T in TAIL]
+    if rng.random() < 0.4:
+        ops += [("reset", None), charge()]
+    return spec, ops
+
+
+def fresh_segments(spec, ops):
+    """for every reset() in ops: what a freshly constructed battery answers to the charge calls that follow it
+    (up to the next reset)"""
+    out = {}
+    for k, op in enumerate(ops):
+        if op[0] == "reset" and op[1] is None:
+            seg = []
+            for o in ops[k + 1:]:
+                if o[0] != "charge":
+                    break
+                seg.append(o)
+            out[str(k)] = batt.run_impl(spec, seg)["obs"]
+    return out
+
+
+def ev_reset_obs(spec, ops):
+    """EV.reset() after the charge calls of ops: energy delivered and battery state"""
+    from acnportal.acnsim.models import EV
+    b, err = batt.construct(spec)
+    if b is None:
+        return None
+    ev = EV(0, 10, 20, "S", "sess", b)
+    for o in ops:
+        if o[0] == "charge" and o[2] > 0 and o[3] > 0:
+            ev.charge(o[1], o[2], o[3])
+    ev.reset()
+    return dict(delivered=batt.fnum(ev.energy_delivered), charge=batt.fnum(b._current_charge), power=batt.fnum(b._current_charging_power))
+
+
+def build(spec, ops, probe, life=False):
     impl = batt.run_impl(spec, ops)
+    if life and impl["ctor_err"] is None:
+        impl["fresh"] = fresh_segments(spec, ops)
+        impl["ev_reset"] = ev_reset_obs(spec, ops)
     if probe is not None and impl["ctor_err"] is None and spec["kind"] == "l2" and probe["p"] > 0:
         impl["ode_charge"] = batt.ode_charge(spec["cap"], spec["maxP"], spec["ts"], probe["c"], probe["p"], probe["V"], probe["T"])
-    kind = "%s/%s" % (spec["kind"], "probe" if probe is not None else "seq")
-    return dict(input=dict(spec=spec, ops=[list(o) for o in ops], probe=probe), impl=impl,
+    kind = "%s/%s" % (spec["kind"], "probe" if probe is not None else "life" if life else "seq")
+    return dict(input=dict(spec=spec, ops=[list(o) for o in ops], probe=probe, life=life), impl=impl,
                 coq=batt.case_coq(spec, ops, impl), ambiguous=False, kind=kind,
                 sig=[spec, [list(o) for o in ops]], nontrivial=True)
 
@@ -79,10 +172,16 @@ def gen_cases(rng, n, tier):
     for spec, probe in CORPUS:
         ops = probe_ops(probe["c"], probe["p"], probe["p_hi"], probe["V"], probe["T"], probe["T_long"])
         cases.append(build(dict(spec), ops, dict(probe)))
+    for spec, ops in LIFE_CORPUS:
+        cases.append(build(dict(spec), list(ops), None, life=True))
     while len(cases) < n:
-        if rng.random() < 0.85:
+        t = rng.random()
+        if t < 0.68:
             spec, ops, probe = rand_probe(rng)
             cases.append(build(spec, ops, probe))
+        elif t < 0.92:
+            spec, ops = rand_life(rng)
+            cases.append(build(spec, ops, None, life=True))
         else:
             # plain noiseless sequences (ideal / continuous), as in C03
             spec = c03.rand_spec(rng, rng.choice(["ideal", "l2"]))
@@ -117,15 +216,70 @@ def extra_streams(rng, tier):
 
 
 CORPUS = [
-    (dict(kind="l2", cap=50, maxP=7, init=30, nl=0, ts=0.8, mode="continuous"),
+    (dict(kind="l2", cap=50, maxP=7, init=12.5, nl=0, ts=0.8, mode="continuous"),
      dict(c=30, p=32, p_hi=40, V=208, T=5, T_long=10)),
-    (dict(kind="l2", cap=50, maxP=7, init=39.8, nl=0, ts=0.8, mode="continuous"),
+    (dict(kind="l2", cap=50, maxP=7, init=50, nl=0, ts=0.8, mode="continuous"),
      dict(c=39.8, p=32, p_hi=33, V=208, T=5, T_long=7.5)),
-    (dict(kind="l2", cap=50, maxP=7, init=45, nl=0, ts=0.8, mode="continuous"),
+    (dict(kind="l2", cap=50, maxP=7, init=0, nl=0, ts=0.8, mode="continuous"),
      dict(c=45, p=8, p_hi=16, V=208, T=5, T_long=5)),
-    (dict(kind="ideal", cap=50, maxP=7, init=49.9),
+    (dict(kind="ideal", cap=50, maxP=7, init=25),
      dict(c=49.9, p=32, p_hi=64, V=208, T=5, T_long=15)),
 ]
+
+
+LIFE_CORPUS = [
+    # charge, reset(25), charge, reset(), then the state-revealing tail (ideal: headroom; two-stage: SoC region)
+    (dict(kind="ideal", cap=100, maxP=6.656, init=50),
+     [("charge", 32, 208, 60, 0.0), ("reset", 25.0), ("charge", 32, 208, 60, 0.0), ("reset", None)]
+     + [("charge", p, 208.0, T, 0.0) for p, T in TAIL]),
+    (dict(kind="l2", cap=100, maxP=6.656, init=50, nl=0, ts=0.5, mode="continuous"),
+     [("reset", 90.0), ("charge", 32, 208, 60, 0.0), ("reset", 150.0), ("reset", None)]
+     + [("charge", p, 208.0, T, 0.0) for p, T in TAIL]),
+]
+
+
+def monitor_life(case):
+    """reset semantics over arbitrary interleavings, stated on the implementation's recorded behaviour:
+    reset() restores the CONSTRUCTOR's state (so that every later call is answered like a fresh battery's),
+    reset(x <= capacity) sets charge x / power 0, reset(x > capacity) and charge(V<=0) change nothing"""
+    spec, impl, ops = case["input"]["spec"], case["impl"], case["input"]["ops"]
+    if impl["ctor_err"] is not None:
+        return None
+    cap, init = spec["cap"], spec["init"]
+    charge, power = init, 0
+    for k, (op, ob) in enumerate(zip(ops, impl["obs"])):
+        if op[0] == "reset":
+            x = op[1]
+            if x is not None and x > cap:
+                if ob["err"] != "ValueError" or ob["charge"] != charge or ob["power"] != power:
+                    return "op %d: reset(%r) above capacity %r not refused / state changed" % (k, x, cap)
+            else:
+                want = init if x is None else x
+                if ob["err"] is not None or ob["charge"] != want or ob["power"] != 0:
+                    return "op %d: reset(%s) left charge %r power %r; expected charge %r (%s), power 0" % (
+                        k, "" if x is None else repr(x), ob["charge"], ob["power"], want,
+                        "the constructor's initial charge" if x is None else "the given level")
+            if x is None:
+                fresh = impl.get("fresh", {}).get(str(k), [])
+                got = impl["obs"][k + 1:k + 1 + len(fresh)]
+                for j, (f, g) in enumerate(zip(fresh, got)):
+                    if (f["err"], f["rate"], f["charge"], f["power"]) != (g["err"], g["rate"], g["charge"], g["power"]):
+                        return ("after reset() at op %d, call %d (%r) is answered rate %r power %r charge %r; a freshly "
+                                "constructed battery answers rate %r power %r charge %r" % (
+                                    k, j, ops[k + 1 + j], g["rate"], g["power"], g["charge"], f["rate"], f["power"], f["charge"]))
+        elif op[2] <= 0 or op[3] <= 0:
+            if ob["err"] != "ValueError" or ob["charge"] != charge or ob["power"] != power:
+                return "op %d: refused charge call changed the state" % k
+        elif ob["err"] is not None:
+            return "op %d: charge raised %s" % (k, ob["err"])
+        elif op[1] == 0 and (ob["rate"] != 0 or ob["power"] != 0 or ob["charge"] != charge):
+            return "op %d: zero pilot delivered something" % k
+        charge, power = ob["charge"], ob["power"]
+    e = impl.get("ev_reset")
+    if e is not None and (e["delivered"] != 0 or e["charge"] != init or e["power"] != 0):
+        return "EV.reset() left energy_delivered %r, battery charge %r power %r (expected 0, %r, 0)" % (
+            e["delivered"], e["charge"], e["power"], init)
+    return None
 
 
 # ---------------------------------------------------------------------------------------------
@@ -135,6 +289,8 @@ def monitor(case):
     if case.get("kind") in ("qexp", "law-ode") or case.get("ambiguous"):
         return None
     spec, impl, pr = case["input"]["spec"], case["impl"], case["input"].get("probe")
+    if case["input"].get("life"):
+        return monitor_life(case)
     if impl["ctor_err"] is not None or not pr:
         return None
     obs = impl["obs"]
@@ -166,7 +322,11 @@ def monitor(case):
         return "zero pilot delivered something: rate %r power %r charge %r -> %r" % (z["rate"], z["power"], zc, z["charge"])
     r = obs[I_RESET]
     if r["charge"] != spec["init"] or r["power"] != 0:
-        return "reset() did not restore the initial state: charge %r power %r" % (r["charge"], r["power"])
+        return "reset() did not restore the initial state: charge %r power %r (constructor: charge %r, power 0)" % (
+            r["charge"], r["power"], spec["init"])
+    for k in (0, I_FULL + 1):
+        if obs[k]["charge"] != c or obs[k]["power"] != 0:
+            return "reset(%r) left charge %r power %r" % (c, obs[k]["charge"], obs[k]["power"])
     return None
 
 
@@ -179,10 +339,15 @@ def search(rng, budget_s, broken):
             r = monitor(c)
             if r:
                 return dict(case=c["input"], impl=c["impl"], why=r)
+            spec, ops = rand_life(rng)
+            c = build(spec, ops, None, life=True)
+            r = monitor(c)
+            if r:
+                return dict(case=c["input"], impl=c["impl"], why=r)
     return None
 
 
 def replay(w):
     inp = w["case"]
-    c = build(dict(inp["spec"]), [tuple(o) for o in inp["ops"]], inp.get("probe"))
+    c = build(dict(inp["spec"]), [tuple(o) for o in inp["ops"]], inp.get("probe"), life=bool(inp.get("life")))
     return monitor(c)
